@@ -52,6 +52,9 @@ def do_run(name, checks, tier, seed):
   d = os.path.join(V, 'seeded', name)
   meta = json.load(open(os.path.join(d, 'meta.json')))
   checks = checks or [meta['property']]
+  if meta.get('retired'):
+    print('%s: retired (%s)' % (name, meta['retired'][:120]))
+    return {}
   assert sh(['git', '-C', '/repo', 'status', '--porcelain', '--untracked-files=no']).stdout.strip() == '', '/repo not clean'
   # By default the patch is applied to a scratch copy of /repo that the checks read through
   # VERIF_REPO: a background run of the checks (vp run) imports /repo too and patching it in place
